@@ -63,8 +63,15 @@ func (d *driver) scenarioHeldAccessor(blocks []*block) {
 				if !seen || e.Ev != "q4.share" {
 					return false
 				}
+				// "partially flushed" is decided by what has been WRITTEN (index of the share just written:
+				// more than one 64 KiB buffer, not yet everything), not by the file's size -- a writer that
+				// sizes the file upfront (seeded C08-5) never shows an intermediate size
+				written := int64(e.N+1) * 512
+				if written <= 65536+512 || written >= b.Ref.Q4FileSize {
+					return false
+				}
 				fi, err := os.Stat(w.q4Path(b))
-				return err == nil && fi.Size() > 0 && fi.Size() < b.Ref.Q4FileSize
+				return err == nil && fi.Size() > 0
 			})
 		}},
 		{"q4-rewritten-after-prune/small", blocks[1], func(w *world, b *block) *gate {
